@@ -201,6 +201,17 @@ class C11(Prop):
                             acc.violation("encode-wrong-epoch:after-zone-change", f"{m // 60:02d}:{m % 60:02d} in {zz} on {t2} (right after encoding it in "
                                           f"{zone if zz == z2 else z2}) encoded as {g2}, want one of {want2}", {"zone": zz})
             acc.count("zone_switches_inside_a_case", 2)
+            clock.set_zone(zone)
+            env.idle((0, 5, 3700, 90000)[now % 4])       # real time passes: the process idles before it decodes again, zone unchanged
+            for e in FIXED_EPOCHS[:24]:
+                acc.ev()
+                try:
+                    got = dec(e.to_bytes(4, "little").hex().encode())
+                    if got != clock.hhmm_of(zone, e):
+                        acc.violation("decode-wrong-time:after-idle", f"epoch {e} in {zone} decoded {got} after an idle period", {"epoch": e, "zone": zone})
+                except Exception as exc:
+                    acc.violation("decode-raised:after-idle", f"decode of epoch {e} in {zone}, an hour or more of real time after it was last decoded, raised "
+                                  f"{type(exc).__name__}: {exc}", {"epoch": e, "zone": zone})
             for _ in range(64):
                 e = r.randrange(0, 2 ** 32) if r.random() < 0.2 else now + r.randrange(-400 * 86400, 400 * 86400)
                 e = max(0, min(2 ** 32 - 1, e))
@@ -221,6 +232,46 @@ class C11(Prop):
                     acc.count("malformed_rejected")
                     continue
                 acc.violation("malformed-accepted", f"{s!r} encoded to {out!r}", {"input": s, "output": out})
+        if now % 3 == 0:
+            # an application-side log handler that fails (full disk, broken pipe) while DEBUG is on: the calls made meanwhile
+            # may fail with it and are not judged - the calls after the handler is gone are
+            import logging
+
+            class Failing(logging.Handler):
+                def emit(self, record):
+                    raise OSError(28, "No space left on device")
+
+            lg = logging.getLogger("aioswitcher")
+            h, old_level = Failing(), lg.level
+            lg.addHandler(h)
+            lg.setLevel(logging.DEBUG)
+            try:
+                for t_ in (now, now + 86400, now + 3 * 86400 + 3600):
+                    with clock.virtual_time(t_):
+                        for s_ in ("00:07", "12:34"):
+                            try:
+                                enc(s_)
+                            except Exception:
+                                acc.count("calls_that_failed_with_the_failing_log_handler")
+            finally:
+                lg.removeHandler(h)
+                lg.setLevel(old_level)
+            t_ = now + 3 * 86400 + 3600 + 60
+            day_ = clock.local(zone, t_).date()
+            with clock.virtual_time(t_):
+                for s_ in ("00:07", "12:34", "23:59"):
+                    want_ = clock.epochs_of(zone, day_, int(s_[:2]), int(s_[3:]))
+                    if not want_:
+                        continue
+                    acc.ev()
+                    try:
+                        g_ = int.from_bytes(bytes.fromhex(enc(s_)), "little")
+                    except Exception as exc:
+                        acc.violation("encode-raised", f"{s_} in {zone} (after a log handler had failed during earlier calls) raised {type(exc).__name__}: {exc}", {"zone": zone})
+                        continue
+                    if g_ not in want_:
+                        acc.violation("encode-wrong-epoch:after-failed-log-handler", f"{s_} in {zone} on {day_} encoded as {g_} ({clock.local(zone, g_)}), want one of {want_}; "
+                                      f"a log handler had raised during earlier calls on earlier dates", {"zone": zone, "time": s_})
         off0 = clock.local(zone, now).utcoffset().total_seconds()
         if nontrivial:
             acc.sig(env.sig(zone, str(today), sorted(o.total_seconds() for o in offs)))
@@ -230,6 +281,19 @@ class C11(Prop):
         if gaps or folds or today != utc_today:
             acc.sample({"zone": zone, "virtual_now_utc": datetime.fromtimestamp(now, timezone.utc).isoformat(),
                         "local_today": str(today), "utc_offset_s": off0, "gap_minutes": gaps, "overlap_minutes": folds})
+
+
+    def thread_pairs(self, ctx):
+        from ..monitors.threadops import FROZEN_AT, expect
+
+        clock.set_zone("Asia/Kathmandu")
+        enc, dec = self.tools.time_to_hexadecimal_timestamp, self.tools.hexadecimale_timestamp_to_localtime
+        today = clock.local("Asia/Kathmandu", FROZEN_AT).date()
+        e = lambda s: clock.epochs_of("Asia/Kathmandu", today, int(s[:2]), int(s[3:]))[0].to_bytes(4, "little").hex()
+        ha, hb = (1_800_000_000).to_bytes(4, "little").hex().encode(), (1_790_012_345).to_bytes(4, "little").hex().encode()
+        return [("decode(A) || decode(B)", lambda: dec(ha), lambda: dec(hb), expect(clock.hhmm_of("Asia/Kathmandu", 1_800_000_000)), expect(clock.hhmm_of("Asia/Kathmandu", 1_790_012_345))),
+                ("encode(07:15) || encode(21:40)", lambda: enc("07:15"), lambda: enc("21:40"), expect(e("07:15")), expect(e("21:40"))),
+                ("decode(A) || decode(A)", lambda: dec(ha), lambda: dec(ha), expect(clock.hhmm_of("Asia/Kathmandu", 1_800_000_000)), expect(clock.hhmm_of("Asia/Kathmandu", 1_800_000_000)))]
 
 
 PROP = C11()
